@@ -51,22 +51,47 @@ func checkC04(r *core.Run) {
 	if fn := r.Func("T-charge", "sao/keeper.msgServer.Store"); fn != nil {
 		res := r.Resolver(fn)
 		ck := &guard.Checker{P: r.P, Fn: fn, Res: res}
-		charges := callsIn(r, fn, "sao/types.BankKeeper.SendCoinsFromAccountToModule")
+		// the charge may sit in a helper extracted from Store: every frame is searched; `ch` is the instruction of
+		// Store that leads to it (the charge itself, or the call of the helper)
+		charges := deepCalls(r, fn, "sao/types.BankKeeper.SendCoinsFromAccountToModule")
 		key := core.Key("T-charge", "sao/keeper.msgServer.Store")
 		if len(charges) != 1 {
 			r.Violate("T-charge", key+"|exactly one charge site", r.P.FuncPos(fn), fmt.Sprintf("Store has %d charge sites, expected exactly one", len(charges)))
 		} else {
-			ch := charges[0].(*ssa.Call)
-			r.Discharge("T-charge", key+"|exactly one charge site", r.P.Pos(ch.Pos()), "one SendCoinsFromAccountToModule in Store")
-			// not in a loop
-			if innermostLoopHeader(fn, ch.Block()) != nil {
-				r.Violate("T-charge", key+"|charge outside loops", r.P.Pos(ch.Pos()), "the charge lies inside a loop: the payer can be charged several times for one order")
+			dc := charges[0]
+			bank := dc.Call.(*ssa.Call)
+			fns := dc.Fr.Fns(fn)
+			ch, _ := dc.Fr.At(0, bank).(*ssa.Call)
+			if ch == nil {
+				r.Undecide("T-charge", key+"|exactly one charge site", r.P.Pos(bank.Pos()), "the instruction of Store leading to the charge is not a plain call")
+				return
+			}
+			r.Discharge("T-charge", key+"|exactly one charge site", r.P.Pos(bank.Pos()), "one SendCoinsFromAccountToModule under Store")
+			// not in a loop, at any level
+			inLoop := false
+			for lvl := range fns {
+				if innermostLoopHeader(fns[lvl], dc.Fr.At(lvl, bank).Block()) != nil {
+					inLoop = true
+				}
+			}
+			if inLoop {
+				r.Violate("T-charge", key+"|charge outside loops", r.P.Pos(bank.Pos()), "the charge lies inside a loop: the payer can be charged several times for one order")
 			} else {
-				r.Discharge("T-charge", key+"|charge outside loops", r.P.Pos(ch.Pos()), "the charge is not inside any loop")
+				r.Discharge("T-charge", key+"|charge outside loops", r.P.Pos(bank.Pos()), "the charge is not inside any loop")
+			}
+			// a helper that holds the charge performs it on every one of its own success paths
+			okS := true
+			for lvl := 1; lvl < len(fns); lvl++ {
+				h := fns[lvl]
+				hb := map[*ssa.BasicBlock]bool{dc.Fr.At(lvl, bank).Block(): true}
+				for _, b := range h.Blocks {
+					if isReturnBlock(b) && successReturnIn(r, h, b) && forwardAvoid(h.Blocks[0], hb, nil, func(x *ssa.BasicBlock) bool { return x == b }) != nil {
+						okS = false
+					}
+				}
 			}
 			// on every success path and before persistence
 			chB := map[*ssa.BasicBlock]bool{ch.Block(): true}
-			okS := true
 			for b := range successBlocks(r, fn) {
 				if forwardAvoid(fn.Blocks[0], chB, nil, func(x *ssa.BasicBlock) bool { return x == b }) != nil {
 					okS = false
@@ -93,10 +118,9 @@ func checkC04(r *core.Run) {
 				}
 			}
 			// amount identity: Order.Amount := the very coin charged, with no write to it in between
-			ct := res.Of(ch)
 			amt := ""
-			if len(ct.Args) == 3 {
-				amt = normT(ct.Args[2].String())
+			if at := dc.ArgTerms(r); len(at) == 3 {
+				amt = at[2]
 			}
 			okId := false
 			var amtAlloc *ssa.Alloc
